@@ -262,6 +262,7 @@ impl CosetTable {
             final(self).table@.len() == old(self).table@.len() || final(self).table@.len() == c + 1 || final(self).table@.len() == d + 1,
             forall|c2: int, g2: int| 0 <= c2 < final(self).table@.len() && old(self).col_ok(g2) && !(c2 == c && g2 == g) && !(c2 == d && g2 == -(g as int))
                 ==> #[trigger] final(self).raw(c2, g2) == (if c2 < old(self).table@.len() { old(self).raw(c2, g2) } else { -1 }),
+            grows(old(self), final(self)),
     {
         self.set(c, g, d);
         self.set(d, -g, c);
@@ -557,13 +558,43 @@ proof fn lemma_act_in_range(t: &CosetTable, c: int, g: int)
     assert(0 <= t.part.rep(t.raw(c, g)) < t.table@.len());
 }
 
+// every generator and inverse generator is defined at row k
+pub open spec fn row_complete(t: &CosetTable, k: int) -> bool { forall|g: int| t.gen_ok(g) ==> #[trigger] t.raw(k, g) >= 0 }
+// every live row is complete
+pub open spec fn all_complete(t: &CosetTable) -> bool { forall|k: int| #[trigger] canonical(t, k) ==> row_complete(t, k) }
+// what the enumeration never undoes: defined entries stay defined, a row that lost its representative role never regains it
+pub open spec fn grows(t0: &CosetTable, t1: &CosetTable) -> bool {
+    &&& t1.nr_gens == t0.nr_gens && t1.table@.len() >= t0.table@.len()
+    &&& forall|c: int, g: int| 0 <= c < t0.table@.len() && t0.col_ok(g) && #[trigger] t0.raw(c, g) >= 0 ==> t1.raw(c, g) >= 0
+    &&& forall|x: int| #[trigger] t1.part.rep(x) == x ==> t0.part.rep(x) == x
+}
+proof fn lemma_grows_trans(a: &CosetTable, b: &CosetTable, c: &CosetTable)
+    requires grows(a, b), grows(b, c)
+    ensures grows(a, c)
+{
+    assert forall|r: int, g: int| 0 <= r < a.table@.len() && a.col_ok(g) && #[trigger] a.raw(r, g) >= 0 implies c.raw(r, g) >= 0 by { assert(b.raw(r, g) >= 0); }
+    assert forall|x: int| #[trigger] c.part.rep(x) == x implies a.part.rep(x) == x by { assert(b.part.rep(x) == x); }
+}
+// rows below `upto` that are live in the later table were live, hence complete, before
+proof fn lemma_keep_rows(t0: &CosetTable, t1: &CosetTable, upto: int)
+    requires grows(t0, t1), upto <= t0.table@.len(), forall|k: int| 0 <= k < upto && #[trigger] canonical(t0, k) ==> row_complete(t0, k)
+    ensures forall|k: int| 0 <= k < upto && #[trigger] canonical(t1, k) ==> row_complete(t1, k)
+{
+    assert forall|k: int| 0 <= k < upto && #[trigger] canonical(t1, k) implies row_complete(t1, k) by {
+        assert(t1.part.rep(k) == k);
+        assert(canonical(t0, k));
+        assert forall|g: int| t1.gen_ok(g) implies #[trigger] t1.raw(k, g) >= 0 by { assert(t0.raw(k, g) >= 0); }
+    }
+}
+
 impl CosetTable {
     //@ begin src/fpgroups/cosets.rs :: impl CosetTable :: fn merge
     //@ rw R17 /for g in self\.all_gens\(\)$/for g in it: self.all_gens()/
     #[verifier::exec_allows_no_decreases_clause]
     fn merge(&mut self, a: usize, b: usize)
         requires rows_ok(old(self)), a < old(self).table@.len(), b < old(self).table@.len()
-        ensures rows_ok(final(self)), final(self).nr_gens == old(self).nr_gens, final(self).table@.len() == old(self).table@.len()
+        ensures rows_ok(final(self)), final(self).nr_gens == old(self).nr_gens, final(self).table@.len() == old(self).table@.len(),
+            grows(old(self), final(self)),
     {
         let mut queue: VecDeque<(usize, usize)> = VecDeque::from([(a, b)]);
         let ghost mut qg: Seq<(usize, usize)> = queue@;
@@ -572,6 +603,7 @@ impl CosetTable {
             invariant
                 qg == queue@,
                 rows_ok(self), self.nr_gens == old(self).nr_gens, self.table@.len() == old(self).table@.len(),
+                grows(old(self), self),
                 forall|k: int| 0 <= k < queue@.len() ==> (#[trigger] queue@[k]).0 < self.table@.len() && queue@[k].1 < self.table@.len(),
         {
             proof {
@@ -585,6 +617,7 @@ impl CosetTable {
                 for g in it: self.all_gens()
                     invariant
                         rows_ok(self), self.nr_gens == old(self).nr_gens, self.table@.len() == old(self).table@.len(),
+                        grows(old(self), self),
                         a < self.table@.len(), b < self.table@.len(),
                         forall|k: int| 0 <= k < queue@.len() ==> (#[trigger] queue@[k]).0 < self.table@.len() && queue@[k].1 < self.table@.len(),
                         forall|k: int| 0 <= k < it.seq().len() ==> self.gen_ok(#[trigger] it.seq()[k] as int),
@@ -600,11 +633,15 @@ impl CosetTable {
                                 assert forall|k: int| 0 <= k < queue@.len() implies (#[trigger] queue@[k]).0 < self.table@.len() && queue@[k].1 < self.table@.len() by { if k < q0.len() { assert(queue@[k] == q0[k]); } }
                             }
                         } else {
+                            let ghost s0 = *self;
                             self.set(b, g, ag);
+                            proof { assert(grows(&s0, self)); lemma_grows_trans(old(self), &s0, self); }
                         }
                     } else if let Some(bg) = self.get(b, g) {
                         proof { lemma_act_in_range(self, b as int, g as int); }
+                        let ghost s0 = *self;
                         self.set(a, g, bg);
+                        proof { assert(grows(&s0, self)); lemma_grows_trans(old(self), &s0, self); }
                     }
                 }
                 let ghost r0 = self.part;
@@ -640,6 +677,14 @@ impl CosetTable {
                         assert(0 <= r0.rep(b as int) < self.table@.len());
                     }
                     assert(rows_ok(self));
+                    assert(grows(&t0, self)) by {
+                        assert forall|x: int| #[trigger] self.part.rep(x) == x implies t0.part.rep(x) == x by {
+                            assert(rb(x) == (if ra(x) == ra(a as int) || ra(x) == ra(b as int) { rb(a as int) } else { ra(x) }));
+                            assert(r0.rep(r0.rep(a as int)) == r0.rep(a as int));
+                            assert(r0.rep(r0.rep(b as int)) == r0.rep(b as int));
+                        }
+                    }
+                    lemma_grows_trans(old(self), &t0, self);
                 }
             }
             proof { qg = queue@; }
@@ -670,6 +715,7 @@ fn scan_and_connect(
     requires rows_ok(old(table)), cols_ok(old(table), w@), start < old(table).table@.len()
     ensures rows_ok(final(table)), final(table).nr_gens == old(table).nr_gens, final(table).table@.len() == old(table).table@.len(),
         r.is_some() ==> r.unwrap().0 < final(table).table@.len(),
+        grows(old(table), final(table)),
 {
     let (head, tail, gap, c) = scan_both_ways(table, w, start);
 
@@ -732,7 +778,9 @@ impl CosetTable {
     #[verifier::spinoff_prover]
     fn compact(&self) -> (result: CosetTable)
         requires rows_ok(self)
-        ensures exists|nw: Seq<int>| compacted(self, &result, nw)
+        ensures exists|nw: Seq<int>| compacted(self, &result, nw),
+            // a table whose live rows are complete compacts to a complete table
+            all_complete(self) ==> complete_table(&result),
     {
         // number the classes in the order of their first members, so that the
         // class of row 0 (the subgroup itself) stays row 0
@@ -865,6 +913,30 @@ impl CosetTable {
             }
             assert forall|c: int| canonical(self, c) implies 0 <= #[trigger] nw[c] < self.table@.len() by { assert(old_to_new@[self.part.rep(c)] != unset); }
             assert(compacted(self, &result, nw));
+            if all_complete(self) {
+                assert forall|r: int, g: int| 0 <= r < result.table@.len() && result.gen_ok(g) implies (#[trigger] result.act(r, g)).is_some() && result.act(r, g).unwrap() < result.table@.len() by {
+                    let k = n2o[r];
+                    assert(old_to_new@[k] == r);
+                    assert(canonical(self, k));
+                    assert(nw[k] == r);
+                    assert(row_complete(self, k));
+                    assert(self.raw(k, g) >= 0);
+                    lemma_act_in_range(self, k, g);
+                    let c = self.act(k, g).unwrap() as int;
+                    assert(canonical(self, c));
+                    assert(old_to_new@[self.part.rep(c)] != unset);
+                    assert(row_complete(self, c));
+                    assert(self.raw(c, g) >= 0);
+                    lemma_act_in_range(self, c, g);
+                    let x = old_to_new@[c] as int;
+                    assert(n2o[x] == c);
+                    assert(res_entry(&result, x, g) == entry_spec(self, old_to_new@, n2o, x, g, len, 0));
+                    assert(old_to_new@[self.part.rep(self.act(c, g).unwrap() as int)] != unset);
+                    assert(res_entry(&result, x, g) >= 0);
+                    assert(x < result.table@.len());
+                    assert(result.act(nw[k], g) == Some(nw[c] as usize));
+                }
+            }
         }
         result
     }
@@ -996,11 +1068,57 @@ proof fn lemma_transport(t: &CosetTable, r: &CosetTable, nw: Seq<int>, k: int, w
     }
 }
 
+// C11: "every generator acts on the rows": every entry of the table is defined and is a row
+pub open spec fn complete_table(t: &CosetTable) -> bool {
+    forall|r: int, g: int| 0 <= r < t.table@.len() && t.gen_ok(g) ==> (#[trigger] t.act(r, g)).is_some() && t.act(r, g).unwrap() < t.table@.len()
+}
+// progress of the enumeration: the live rows below i are complete, and so is row i for the first gk generators (if it is still live)
+pub open spec fn prog(t: &CosetTable, i: int, gens: Seq<isize>, gk: int) -> bool {
+    &&& forall|k: int| 0 <= k < i && #[trigger] canonical(t, k) ==> row_complete(t, k)
+    &&& canonical(t, i) ==> forall|j: int| 0 <= j < gk ==> t.raw(i, #[trigger] gens[j] as int) >= 0
+}
+proof fn lemma_prog_grows(t0: &CosetTable, t1: &CosetTable, i: int, gens: Seq<isize>, gk: int)
+    requires grows(t0, t1), prog(t0, i, gens, gk), 0 <= i < t0.table@.len(), 0 <= gk <= gens.len(),
+        forall|j: int| 0 <= j < gens.len() ==> t0.col_ok(#[trigger] gens[j] as int),
+    ensures prog(t1, i, gens, gk)
+{
+    lemma_keep_rows(t0, t1, i);
+    if canonical(t1, i) {
+        assert(t1.part.rep(i) == i);
+        assert(canonical(t0, i));
+        assert forall|j: int| 0 <= j < gk implies t1.raw(i, #[trigger] gens[j] as int) >= 0 by { assert(t0.raw(i, gens[j] as int) >= 0); }
+    }
+}
+proof fn lemma_all_complete_grows(t0: &CosetTable, t1: &CosetTable)
+    requires grows(t0, t1), all_complete(t0), t0.table@.len() == t1.table@.len()
+    ensures all_complete(t1)
+{
+    assert(forall|k: int| 0 <= k < t0.table@.len() && #[trigger] canonical(t0, k) ==> row_complete(t0, k));
+    lemma_keep_rows(t0, t1, t0.table@.len() as int);
+}
+proof fn lemma_trace_total(t: &CosetTable, row: int, w: Seq<isize>)
+    requires complete_table(t), 0 <= row < t.table@.len(), cols_ok(t, w), reduced(w)
+    ensures trace(t, row, w).is_some(), trace(t, row, w).unwrap() < t.table@.len()
+    decreases w.len()
+{
+    if w.len() > 0 {
+        let w0 = w.drop_last();
+        assert(cols_ok(t, w0)) by { assert forall|j: int| 0 <= j < w0.len() implies t.col_ok(#[trigger] w0[j] as int) by { assert(w0[j] == w[j]); } }
+        assert(reduced(w0)) by {
+            assert forall|j: int| 0 <= j < w0.len() implies #[trigger] w0[j] != 0 && w0[j] > isize::MIN by { assert(w0[j] == w[j]); }
+            assert forall|j: int| 0 <= j < w0.len() - 1 implies !neg_eq(#[trigger] w0[j + 1], w0[j]) by { assert(w0[j + 1] == w[j + 1]); assert(w0[j] == w[j]); }
+        }
+        lemma_trace_total(t, row, w0);
+        assert(w[w.len() - 1] != 0 && t.col_ok(w[w.len() - 1] as int));
+        assert(t.gen_ok(w.last() as int));
+    }
+}
+
 //@ begin src/fpgroups/cosets.rs :: - :: fn coset_table
 //@ rw R16 /^\) -> CosetTable$/) -> (result: CosetTable)/
-//@ rw R19 /for i in 0\.\.$/for i in 0..usize::MAX/
+//@ rw R19 /for i in 0\.\.\n([ \t]*)\{/let mut __i: usize = 0;\n\1loop\n\1{\n\1    let i = __i; __i += 1;/
 //@ rw R19 /assert!\(n < 100_000, "Reached coset table limit of 100_000"\);/__limit_guard(n < 100_000);/
-//@ rw R17 /for g in table\.all_gens\(\)$/for g in it: table.all_gens()/
+//@ rw R20 /for g in table\.all_gens\(\)\n([ \t]*)\{/let __gens = table.all_gens(); let mut __gk: usize = 0;\n\1while __gk < __gens.len()\n\1{\n\1    let g = __gens[__gk]; __gk += 1;/
 //@ rw R5+R17 /for w in &rels$/for w in it: __set_items(&rels)/
 //@ rw R17 /for w in subgroup_gens$/for w in it: subgroup_gens/
 //@ rw R5+R14 /^([ \t]*)deduced\.extend\(scan_and_connect\(&mut table, w, c\)\);/\1let __d = scan_and_connect(&mut table, w, c);\n\1__extend_opt(&mut deduced, __d);/
@@ -1017,10 +1135,12 @@ pub fn coset_table(
         all_within(relators@, nr_gens as int), all_within(subgroup_gens@, nr_gens as int),
     ensures result.wf(), result.nr_gens == nr_gens, result.table@.len() >= 1,
         forall|x: int| #[trigger] result.part.rep(x) == x,
-        // C11: "every relator traced from every row returns to that row" (wherever the trace is defined) ...
-        forall|m: int, r: int| 0 <= m < relators@.len() && 0 <= r < result.table@.len() ==> #[trigger] closes(&result, relators@[m]@, r),
+        // C11: "every generator acts on the rows": every entry is defined and is a row of the table
+        complete_table(&result),
+        // C11: "every relator traced from every row returns to that row" ...
+        forall|m: int, r: int| 0 <= m < relators@.len() && 0 <= r < result.table@.len() ==> #[trigger] trace(&result, r, relators@[m]@) == Some(r as usize),
         // ... "and every generator of H traced from row 0 returns to row 0"
-        forall|m: int| 0 <= m < subgroup_gens@.len() ==> closes(&result, (#[trigger] subgroup_gens@[m])@, 0),
+        forall|m: int| 0 <= m < subgroup_gens@.len() ==> trace(&result, 0, (#[trigger] subgroup_gens@[m])@) == Some(0usize),
 {
     let rels = expanded_relator_set(relators);
     let mut table = CosetTable::new(nr_gens);
@@ -1030,22 +1150,44 @@ pub fn coset_table(
         assert(rows_ok(&table));
     }
 
-    for i in 0..usize::MAX
+    let mut __i: usize = 0;
+    loop
+        invariant_except_break __i <= table.table@.len(),
         invariant rows_ok(&table), table.nr_gens == nr_gens,
             all_within(subgroup_gens@, nr_gens as int),
             forall|u: FreeWord| #[trigger] rels@.contains(u) ==> within(u@, nr_gens as int),
+            forall|k: int| 0 <= k < __i && #[trigger] canonical(&table, k) ==> row_complete(&table, k),
+        ensures rows_ok(&table), table.nr_gens == nr_gens, all_complete(&table),
     {
+        let i = __i; __i += 1;
         if i >= table.len() {
+            proof {
+                assert forall|k: int| #[trigger] canonical(&table, k) implies row_complete(&table, k) by { assert(0 <= k < i); }
+            }
             break;
         }
 
-        for g in it: table.all_gens()
+        let __gens = table.all_gens(); let mut __gk: usize = 0;
+        proof {
+            assert forall|j: int| 0 <= j < __gens@.len() implies table.gen_ok(#[trigger] __gens@[j] as int) && gen_index(&table, __gens@[j] as int) == j by { }
+            assert forall|g2: int| #[trigger] table.gen_ok(g2) implies 0 <= gen_index(&table, g2) < __gens@.len() && __gens@[gen_index(&table, g2)] == g2 by {
+                if g2 > 0 { assert(__gens@[g2 - 1] == g2); } else { assert(__gens@[nr_gens - g2 - 1] == g2); }
+            }
+        }
+        while __gk < __gens.len()
             invariant rows_ok(&table), table.nr_gens == nr_gens, i < table.table@.len(),
                 all_within(subgroup_gens@, nr_gens as int),
                 forall|u: FreeWord| #[trigger] rels@.contains(u) ==> within(u@, nr_gens as int),
-                forall|k: int| 0 <= k < it.seq().len() ==> table.gen_ok(#[trigger] it.seq()[k] as int),
+                __gens@.len() == 2 * nr_gens, __gk <= __gens@.len(),
+                forall|j: int| 0 <= j < __gens@.len() ==> table.gen_ok(#[trigger] __gens@[j] as int) && gen_index(&table, __gens@[j] as int) == j,
+                forall|g2: int| #[trigger] table.gen_ok(g2) ==> 0 <= gen_index(&table, g2) < __gens@.len() && __gens@[gen_index(&table, g2)] == g2,
+                prog(&table, i as int, __gens@, __gk as int),
+            ensures rows_ok(&table), table.nr_gens == nr_gens, i < table.table@.len(),
+                forall|k: int| 0 <= k < i && #[trigger] canonical(&table, k) ==> row_complete(&table, k),
+                canonical(&table, i as int) ==> row_complete(&table, i as int),
         {
-            proof { assert(table.gen_ok(it.seq()[it.index() as int] as int)); }
+            let g = __gens[__gk]; __gk += 1;
+            proof { assert(table.gen_ok(__gens@[__gk - 1] as int)); }
             if i != table.canon(i) {
                 break;
             }
@@ -1066,6 +1208,9 @@ pub fn coset_table(
                         if x == n { assert(t0.part.rep(x) == x); } else { assert(0 <= t0.part.rep(x) < t0.table@.len()); }
                     }
                     assert(rows_ok(&table));
+                    lemma_prog_grows(&t0, &table, i as int, __gens@, __gk - 1);
+                    assert(table.raw(i as int, g as int) == n);
+                    assert(prog(&table, i as int, __gens@, __gk as int));
                 }
 
                 // scan the relators through the new edge, and through every
@@ -1076,21 +1221,31 @@ pub fn coset_table(
                         all_within(subgroup_gens@, nr_gens as int),
                         forall|u: FreeWord| #[trigger] rels@.contains(u) ==> within(u@, nr_gens as int),
                         forall|k: int| 0 <= k < deduced@.len() ==> (#[trigger] deduced@[k]).0 < table.table@.len(),
+                        __gk <= __gens@.len(),
+                        forall|j: int| 0 <= j < __gens@.len() ==> table.gen_ok(#[trigger] __gens@[j] as int),
+                        prog(&table, i as int, __gens@, __gk as int),
                 {
                     for w in it: __set_items(&rels)
                         invariant rows_ok(&table), table.nr_gens == nr_gens, i < table.table@.len(), r < table.table@.len(),
                             forall|u: FreeWord| #[trigger] rels@.contains(u) ==> within(u@, nr_gens as int),
                             forall|j: int| 0 <= j < it.seq().len() ==> rels@.contains(*#[trigger] it.seq()[j]),
                             forall|k: int| 0 <= k < deduced@.len() ==> (#[trigger] deduced@[k]).0 < table.table@.len(),
+                            __gk <= __gens@.len(),
+                            forall|j: int| 0 <= j < __gens@.len() ==> table.gen_ok(#[trigger] __gens@[j] as int),
+                            prog(&table, i as int, __gens@, __gk as int),
                     {
                         proof { assert(rels@.contains(*it.seq()[it.index() as int])); assert(within(w@, nr_gens as int)); }
                         if w.len() > 0 && w[0] == h {
                             proof { assert forall|j: int| 0 <= j < w@.len() implies table.col_ok(#[trigger] w@[j] as int) by { assert(-(nr_gens as int) <= w@[j] <= nr_gens); } }
                             let c = table.canon(r);
                             let ghost d0 = deduced@;
+                            let ghost tb = table;
                             let __d = scan_and_connect(&mut table, w, c);
                             __extend_opt(&mut deduced, __d);
-                            proof { assert forall|k: int| 0 <= k < deduced@.len() implies (#[trigger] deduced@[k]).0 < table.table@.len() by { if k < d0.len() { assert(deduced@[k] == d0[k]); } } }
+                            proof {
+                                assert forall|k: int| 0 <= k < deduced@.len() implies (#[trigger] deduced@[k]).0 < table.table@.len() by { if k < d0.len() { assert(deduced@[k] == d0[k]); } }
+                                lemma_prog_grows(&tb, &table, i as int, __gens@, __gk as int);
+                            }
                         }
                     }
                     for w in it: subgroup_gens
@@ -1099,6 +1254,9 @@ pub fn coset_table(
                             it.seq().len() == subgroup_gens@.len(),
                             forall|m: int| 0 <= m < subgroup_gens@.len() ==> *(#[trigger] it.seq()[m]) == subgroup_gens@[m],
                             forall|k: int| 0 <= k < deduced@.len() ==> (#[trigger] deduced@[k]).0 < table.table@.len(),
+                            __gk <= __gens@.len(),
+                            forall|j: int| 0 <= j < __gens@.len() ==> table.gen_ok(#[trigger] __gens@[j] as int),
+                            prog(&table, i as int, __gens@, __gk as int),
                     {
                         proof {
                             let m = it.index() as int;
@@ -1108,12 +1266,29 @@ pub fn coset_table(
                         }
                         let c = table.canon(0);
                         let ghost d0 = deduced@;
+                        let ghost tb = table;
                         let __d = scan_and_connect(&mut table, w, c);
                         __extend_opt(&mut deduced, __d);
-                        proof { assert forall|k: int| 0 <= k < deduced@.len() implies (#[trigger] deduced@[k]).0 < table.table@.len() by { if k < d0.len() { assert(deduced@[k] == d0[k]); } } }
+                        proof {
+                            assert forall|k: int| 0 <= k < deduced@.len() implies (#[trigger] deduced@[k]).0 < table.table@.len() by { if k < d0.len() { assert(deduced@[k] == d0[k]); } }
+                            lemma_prog_grows(&tb, &table, i as int, __gens@, __gk as int);
+                        }
                     }
                 }
             }
+            proof {
+                // defined before, or just defined by the join above and kept by everything after it
+                assert(prog(&table, i as int, __gens@, __gk as int)) by {
+                    if canonical(&table, i as int) {
+                        assert(table.raw(i as int, g as int) >= 0);
+                        assert forall|j: int| 0 <= j < __gk implies table.raw(i as int, #[trigger] __gens@[j] as int) >= 0 by { if j == __gk - 1 { assert(__gens@[j] == g); } }
+                    }
+                }
+            }
+        }
+        proof {
+            // the generator loop ran to its end (or row i is no longer live): row i is complete
+            assert forall|k: int| 0 <= k < __i && #[trigger] canonical(&table, k) implies row_complete(&table, k) by { }
         }
     }
 
@@ -1122,24 +1297,24 @@ pub fn coset_table(
     // that was not discovered).  Check every relator at every live row and
     // merge until the table is consistent.
     loop
-        invariant_except_break rows_ok(&table), table.nr_gens == nr_gens,
+        invariant_except_break rows_ok(&table), table.nr_gens == nr_gens, all_complete(&table),
             all_within(subgroup_gens@, nr_gens as int),
             forall|u: FreeWord| #[trigger] rels@.contains(u) ==> within(u@, nr_gens as int),
-        ensures rows_ok(&table), table.nr_gens == nr_gens,
+        ensures rows_ok(&table), table.nr_gens == nr_gens, all_complete(&table),
             // the last pass found every due word closing at every row, and changed nothing
             pass_done(&table, rels@, subgroup_gens@, table.table@.len() as int),
     {
         let mut changed = false;
 
         for i in iti: 0..table.len()
-            invariant rows_ok(&table), table.nr_gens == nr_gens,
+            invariant rows_ok(&table), table.nr_gens == nr_gens, all_complete(&table),
                 iti.seq().len() == table.table@.len(),
                 all_within(subgroup_gens@, nr_gens as int),
                 forall|u: FreeWord| #[trigger] rels@.contains(u) ==> within(u@, nr_gens as int),
                 !changed ==> pass_done(&table, rels@, subgroup_gens@, i as int),
         {
             for w in it: __words_at(&rels, subgroup_gens, i)
-                invariant rows_ok(&table), table.nr_gens == nr_gens, i < table.table@.len(), iti.seq().len() == table.table@.len(),
+                invariant rows_ok(&table), table.nr_gens == nr_gens, all_complete(&table), i < table.table@.len(), iti.seq().len() == table.table@.len(),
                     all_within(subgroup_gens@, nr_gens as int),
                     forall|u: FreeWord| #[trigger] rels@.contains(u) ==> within(u@, nr_gens as int),
                     forall|j: int| 0 <= j < it.seq().len() ==> rels@.contains(*#[trigger] it.seq()[j]) || (i == 0 && is_sub(subgroup_gens@, *it.seq()[j])),
@@ -1162,8 +1337,10 @@ pub fn coset_table(
                 let c = table.canon(i);
                 let (head, tail, gap, _) = scan_both_ways(&table, w, c);
                 if gap == 0 && head != tail {
+                    let ghost tb = table;
                     table.merge(head, tail);
                     changed = true;
+                    proof { lemma_all_complete_grows(&tb, &table); }
                 }
                 proof {
                     assert(!changed && idx + 1 == it.seq().len() ==> row_done(&table, rels@, subgroup_gens@, i as int)) by {
@@ -1192,7 +1369,8 @@ pub fn coset_table(
     let __r = table.compact();
     proof {
         let nw = choose|nw: Seq<int>| compacted(&table, &__r, nw);
-        assert forall|m: int, r: int| 0 <= m < relators@.len() && 0 <= r < __r.table@.len() implies #[trigger] closes(&__r, relators@[m]@, r) by {
+        assert(complete_table(&__r));
+        assert forall|m: int, r: int| 0 <= m < relators@.len() && 0 <= r < __r.table@.len() implies #[trigger] trace(&__r, r, relators@[m]@) == Some(r as usize) by {
             assert(is_row(&__r, r));
             let k = choose|k: int| canonical(&table, k) && #[trigger] nw[k] == r;
             assert(has_view(rels@, relators@[m]@));
@@ -1202,13 +1380,15 @@ pub fn coset_table(
             u.lemma_reduced();
             assert(within(u@, nr_gens as int));
             assert forall|j: int| 0 <= j < u@.len() implies table.col_ok(#[trigger] u@[j] as int) by { assert(-(nr_gens as int) <= u@[j] <= nr_gens); }
+            assert(cols_ok(&__r, u@)) by { assert forall|j: int| 0 <= j < u@.len() implies __r.col_ok(#[trigger] u@[j] as int) by { assert(table.col_ok(u@[j] as int)); } }
             lemma_transport(&table, &__r, nw, k, u@);
+            lemma_trace_total(&__r, r, u@);
             if trace(&table, k, u@).is_some() {
                 let x = trace(&table, k, u@).unwrap() as int;
                 assert(x == k);
             }
         }
-        assert forall|m: int| 0 <= m < subgroup_gens@.len() implies closes(&__r, (#[trigger] subgroup_gens@[m])@, 0) by {
+        assert forall|m: int| 0 <= m < subgroup_gens@.len() implies trace(&__r, 0, (#[trigger] subgroup_gens@[m])@) == Some(0usize) by {
             let k = table.part.rep(0);
             assert(0 <= k < table.table@.len());
             assert(table.part.rep(table.part.rep(0)) == table.part.rep(0));
@@ -1220,7 +1400,9 @@ pub fn coset_table(
             u.lemma_reduced();
             assert(within(u@, nr_gens as int));
             assert forall|j: int| 0 <= j < u@.len() implies table.col_ok(#[trigger] u@[j] as int) by { assert(-(nr_gens as int) <= u@[j] <= nr_gens); }
+            assert(cols_ok(&__r, u@)) by { assert forall|j: int| 0 <= j < u@.len() implies __r.col_ok(#[trigger] u@[j] as int) by { assert(table.col_ok(u@[j] as int)); } }
             lemma_transport(&table, &__r, nw, k, u@);
+            lemma_trace_total(&__r, 0, u@);
         }
     }
     __r
